@@ -96,7 +96,7 @@ def fold_int(node, consts):
     return None
 
 
-def check_biginteger_sign_room(ctx, pt):
+def check_biginteger_sign_room(ctx, pt, rule='C01.R3'):
     """BigInteger.write pads the magnitude bits to a multiple of 64 *with at least one leading zero* (room for the sign bit), for every bit length.
     The padding statements are evaluated over bit lengths 1..192 by a tiny evaluator of the extracted arithmetic (lengths only, no values)."""
     c = get_class(pt, 'BigInteger')
@@ -167,7 +167,7 @@ def check_biginteger_sign_room(ctx, pt):
         total = env[var][1]
         if total % 64 != 0 or total <= L:
             bad.append((L, total))
-    ctx.check(not bad, 'C01.R3', 'BigInteger.write|sign-room', site, 'for every magnitude bit length 1..192 the padded length is a multiple of 64 with at least one leading zero (sign bit)',
+    ctx.check(not bad, rule, 'BigInteger.write|sign-room', site, 'for every magnitude bit length 1..192 the padded length is a multiple of 64 with at least one leading zero (sign bit)',
               'the padded bit string leaves no room for the sign bit or is not a multiple of 64 bits for (bit length, padded length) = %s: such values decode with the wrong sign' % bad[:4])
 
 
